@@ -3,7 +3,7 @@ from lib.engine import Check, Stream
 CHECK = Check(
     "C07",
     streams=[Stream("buffer", drv="c07", sub="c07",
-                    nontrivial=lambda tags, inp: "client" in tags or "reset" in tags or "reuse" in tags,
+                    nontrivial=lambda tags, inp: "client" in tags or "reset" in tags or "reuse" in tags or "builtin" in tags,
                     descr="histories over one ByteBuffer")],
     rule=("histories over one buffer: exhaustive over an 18-operation alphabet (Bufferize, BufferizeString, "
           "Acquire/append/Release, AssignBuf to bytes and to string, generated TestObject CopyTo into a fresh destination and "
@@ -12,12 +12,25 @@ CHECK = Check(
           "a handed-out value fed back) to length 3 (quick) or 4 (thorough) x initial capacity {0, tight, roomy}, plus seeded "
           "random histories up to length 40 (there also: CopyTo of TestHistory and TestObject1 - []byte, *[]byte, nested "
           "struct fields -, fresh and non-fresh destinations with values shorter / equal / longer than what the field holds, "
-          "buffered Assign into the field that holds an earlier value); after every step every live handed-out "
+          "buffered Assign into the field that holds an earlier value). CopyTo of the BUILT-IN inspectors: [nothing | one value "
+          "handed out | buffer used and reset] + one of 9 copies (StringAnyMapInspector on a flat map, text on the outer level "
+          "and in a nested map, nested *map / **map with *string / *[]byte values, text only below the outer level, three "
+          "levels; StringsInspector []string / [][]byte -> *[]string / *[][]byte, the four pairings, an empty element) + one of "
+          "17 operations after it (every buffer operation, client overwrite / append / unbuffered Assign / feed back on the "
+          "last copy AND on its source, a map / strings CopyTo into the destination used before) x the three capacities, plus "
+          "60 (quick) / 1500 (thorough) seeded random histories mixing random nested maps (depth <= 3), strings copies and "
+          "client-owned source values with all other operations; thorough adds three more pasts and two operations after the "
+          "copy. Every source text and every copied text of a built-in CopyTo is a holder of its own (source, copy, ... in the "
+          "order of the case text, independent of Go's map iteration order). After every step every live handed-out "
           "value is re-read and all address ranges (capacity included) are tested for overlap. Non-trivial = contains a client "
-          "mutation, a Reset or a destination used again; distinct = distinct input string."),
+          "mutation, a Reset, a destination used again or a built-in CopyTo / watched source; distinct = distinct input string."),
     assumptions=["append growth is an oracle: theorems quantify over every growth policy; the model run uses extra=0 and only "
                  "growth-independent observables are compared (buffer length, contents, overlap)",
-                 "amd64; strings handed out are immutable"],
+                 "amd64; strings handed out are immutable",
+                 "Go's map iteration order is not modelled: a map[string]any source is a token list in one order, the observables "
+                 "compared (buffer length, content of every holder, overlap) do not depend on the order for the tight buffer "
+                 "(C07_content_stable / C07_no_overlap hold for every token list), and the holders are listed in the order of the "
+                 "case text"],
 )
 
 MANIFEST = {
@@ -26,9 +39,12 @@ MANIFEST = {
              "capacity and every append growth policy, each value handed out since the last Reset reads what its holder is entitled to "
              "and no two live handed-out values overlap, capacity included (induction over the operation list on an explicit byte-array "
              "heap; the operations include CopyTo / buffered Assign into a destination that is not fresh, "
-             "C07_used_destination_as_fresh). C07_refuted_loose shows the pre-fix slicing violates it. The model is tied to /repo by running the extracted model "
-             "and the real ByteBuffer / AssignBuf / generated CopyTo on the same histories."),
+             "C07_used_destination_as_fresh; CopyTo of the built-in map[string]any and []string / [][]byte inspectors with every "
+             "source text observed next to its copy, equal to the sequence of its Bufferize calls: "
+             "C07_builtin_copy_is_bufferize_sequence). C07_refuted_loose shows the pre-fix slicing violates it. The model is tied to /repo by running the extracted model "
+             "and the real ByteBuffer / AssignBuf / generated CopyTo / StringAnyMapInspector.CopyTo / StringsInspector.CopyTo on the same "
+             "histories."),
     "note": ("Trusted: Coq kernel, extraction (ExtrOcamlBasic+ExtrOcamlString), Go harness. Modelled not verified: buffer.go, bufferize.go, "
-             "the buffered branches of assign_builtin.go, the cpy statement pattern; Go's append growth is an oracle. No axioms."),
+             "the buffered branches of assign_builtin.go, the cpy statement pattern, cpy of stranymap.go and CopyTo of strings.go; Go's append growth is an oracle. No axioms."),
     "technique": "Rocq invariant proof by induction over operation histories + extracted-model correspondence",
 }
